@@ -49,15 +49,7 @@ func c11(c *q.Ctx) {
 		c.ArgIs(av, "AKSetsValidator.validateAkSet", 1, "p1.ACL.AkSets.Sets[]", 1, "every listed set is tried")
 		c.Guard(av, q.Cond{Canon: "(0 == len(p1.ACL.AkSets.Sets))", Sense: true}, q.ToSuccess(), q.Opt{})
 	}
-	bp := c.Fn(pt + "buildPermTree")
-	if bp != nil {
-		cur := "phi{p0|ptree.(*PermNode).FindChild(loop,ptree.SplitAccountURI(p2[])[])|ptree.NewPermNode(*)}"
-		c.Effect(bp, q.Eff{Spec: "PermNode.FindChild", Arg: -2, Glob: cur, Why: "a path component is looked up among the children of the node being descended", Rule: "K12"})
-		c.Effect(bp, q.Eff{Spec: "append", Arg: 0, Glob: cur + ".Children", Req: []q.Cond{{Canon: "(nil == ptree.(*PermNode).FindChild(" + cur + ",ptree.SplitAccountURI(p2[])[]))", Sense: true}}, Why: "a child is created only after the lookup under the same parent missed: one node per distinct signer", Rule: "K12"})
-		c.Guard(bp, q.Cond{Canon: "(p0.Name == ptree.SplitAccountURI(p2[])[0])", Sense: false}, q.ToCallSameIter("PermNode.FindChild"), q.Opt{Unless: []q.Cond{{Canon: "p3", Sense: false}}})
-		c.Guard(bp, q.Cond{Canon: "(len(ptree.SplitAccountURI(p2[])) < 2)", Sense: true}, q.ToCallSameIter("PermNode.FindChild"), q.Opt{Unless: []q.Cond{{Canon: "p3", Sense: false}}})
-		c.Gate(bp, "AclManager.GetAccountACL", q.ToSuccess(), q.Opt{K1Only: true})
-	}
+	permTree(c)
 	vp := c.Fn(ut + "validatePermTree")
 	if vp != nil {
 		c.ReturnIs(vp, 0, []string{"false", "(2 == p0.Status)"}, "the verdict is the status computed for the root")
@@ -138,4 +130,19 @@ func isReturnMaybeTrue(i ssa.Instruction) bool {
 		return false
 	}
 	return true
+}
+
+// permTree (K12): one node per distinct signer per parent, looked up under the node being descended; account trees
+// accept only URIs of the account (shared by C11 and C07: authorisation is evaluated on this tree).
+func permTree(c *q.Ctx) {
+	const pt = "kernel/permission/acl/ptree::"
+	bp := c.Fn(pt + "buildPermTree")
+	if bp != nil {
+		cur := "phi{p0|ptree.(*PermNode).FindChild(loop,ptree.SplitAccountURI(p2[])[])|ptree.NewPermNode(*)}"
+		c.Effect(bp, q.Eff{Spec: "PermNode.FindChild", Arg: -2, Glob: cur, Why: "a path component is looked up among the children of the node being descended", Rule: "K12"})
+		c.Effect(bp, q.Eff{Spec: "append", Arg: 0, Glob: cur + ".Children", Req: []q.Cond{{Canon: "(nil == ptree.(*PermNode).FindChild(" + cur + ",ptree.SplitAccountURI(p2[])[]))", Sense: true}}, Why: "a child is created only after the lookup under the same parent missed: one node per distinct signer", Rule: "K12"})
+		c.Guard(bp, q.Cond{Canon: "(p0.Name == ptree.SplitAccountURI(p2[])[0])", Sense: false}, q.ToCallSameIter("PermNode.FindChild"), q.Opt{Unless: []q.Cond{{Canon: "p3", Sense: false}}})
+		c.Guard(bp, q.Cond{Canon: "(len(ptree.SplitAccountURI(p2[])) < 2)", Sense: true}, q.ToCallSameIter("PermNode.FindChild"), q.Opt{Unless: []q.Cond{{Canon: "p3", Sense: false}}})
+		c.Gate(bp, "AclManager.GetAccountACL", q.ToSuccess(), q.Opt{K1Only: true})
+	}
 }
